@@ -37,7 +37,7 @@ Definition row_ref (r : srow) : option sref :=
 Definition leaf_ok (i : info) (allow_varies : bool) : bool :=
   match i_dt i with
   | Some d => smem d (t_base_datatypes t) || (allow_varies && streqb d "varies")
-  | None => false
+  | None => allow_varies      (* untyped leaf (reserved positions of v2.5.1): behaves like varies *)
   end.
 
 (* datatype struct whose components are all base leaves *)
@@ -85,4 +85,14 @@ Definition table_report : list str * list str * list str :=
   (map fst (filter (fun p => negb (wf_seg good p)) (t_segments t)),
    map fst (filter (fun p => negb (wf_struct flat p)) (t_structs t)),
    map fst (filter (fun p => negb (wf_field_ref good (snd p))) (t_fields t))).
+
+Definition only_wildcard (l : list str) : bool :=
+  match l with [] => true | [x] => streqb x "ANYHL7SEGMENT" | _ => false end.
+(* every segment, struct and field row is well formed; ANYHL7SEGMENT (a structure wildcard, not a
+   segment) is the only entry allowed to fail *)
+Definition report_ok : bool :=
+  match table_report with
+  | (bad_segs, bad_structs, bad_fields) =>
+      only_wildcard bad_segs && match bad_structs, bad_fields with [], [] => true | _, _ => false end
+  end.
 End Wf.
